@@ -79,9 +79,14 @@ func chanScenario(c M) M {
 			// rounds of SendTimeout(3ms) on an unbuffered channel whose receiver takes the value right around the deadline (offset
 			// swept), while background goroutines keep every processor busy so that the sender is not rescheduled at once.
 			// "returns true exactly when the value was handed to the channel": per round the answer must equal what the receiver saw.
-			rounds, bad, sent := num(c, "rounds"), 0, 0
+			rounds, bad, sent, early := num(c, "rounds"), 0, 0, 0
 			stop := make(chan struct{})
-			for i := 0; i < 2*runtime.GOMAXPROCS(0); i++ {
+			fast := boolean(c, "fast") // many short rounds on idle processors instead of few rounds on busy ones
+			nspin := 2 * runtime.GOMAXPROCS(0)
+			if fast {
+				nspin = 0
+			}
+			for i := 0; i < nspin; i++ {
 				go func() {
 					x := 0
 					for {
@@ -98,12 +103,19 @@ func chanScenario(c M) M {
 				rc := make(chan int)
 				T := 3 * time.Millisecond
 				off := time.Duration(r%41-25) * 20 * time.Microsecond // -500us .. +300us
+				if fast {
+					T = 80 * time.Microsecond
+					off = time.Duration(r%41-25) * 2 * time.Microsecond // -50us .. +30us
+				}
 				got := make(chan bool, 1)
 				t0 := time.Now()
 				go func() {
 					for time.Since(t0) < T+off {
 					}
 					end := t0.Add(T + 2*time.Millisecond)
+					if fast {
+						end = t0.Add(T + 100*time.Microsecond)
+					}
 					for time.Now().Before(end) {
 						select {
 						case <-rc:
@@ -122,9 +134,32 @@ func chanScenario(c M) M {
 				if ok != g {
 					bad++
 				}
+				// right after a call that ended at its deadline: calls with a non-positive timeout, which must wait for their peer
+				// however long it takes (whatever the timed call left behind must not make them give up)
+				c2 := make(chan int)
+				lag := 200 * time.Microsecond
+				if fast {
+					lag = 20 * time.Microsecond
+				}
+				go func() { time.Sleep(lag); c2 <- 7 }()
+				if v, ok2 := chans.RecvTimeout(c2, 0); !ok2 || v != 7 {
+					early++
+				}
+				c3 := make(chan int)
+				got3 := make(chan int, 1)
+				go func() { time.Sleep(lag); got3 <- <-c3 }()
+				if ok3 := chans.SendTimeout(c3, 8, -1); !ok3 {
+					early++
+					select {
+					case c3 <- 8: // release the receiver
+					case <-time.After(time.Millisecond):
+					}
+				} else if <-got3 != 8 {
+					early++
+				}
 			}
 			close(stop)
-			e["n"], e["limit"], e["pending"] = rounds, sent, bad
+			e["n"], e["limit"], e["pending"], e["fill"] = rounds, sent, bad, early
 			e["panic"] = ""
 			return e
 		}
